@@ -18,6 +18,7 @@ using celma::format::TextBlock;
 
 struct Session {
    std::unique_ptr<TextBlock> tb;
+   long nformat = 0;
    void reset(long indent, long width, bool first) {
       tb = std::make_unique<TextBlock>(static_cast<int>(indent), static_cast<int>(width), first);
       vj::Line().str("e", "Reset").num("indent", indent).num("width", width).boolean("first", first).emit();
@@ -27,11 +28,17 @@ struct Session {
       // the caller's text in an exactly sized heap string (no spare capacity behind the last byte)
       std::unique_ptr<std::string> in(new std::string(text));
       in->shrink_to_fit();
+      // the destination stream is the caller's: it may carry sticky formatting state from earlier output (fill
+      // character, adjustment, number base); the block must come out the same (three of four calls get such a stream)
       std::ostringstream os;
+      const long st = nformat++ % 4;
+      if (st == 1) { os.fill('0'); os.setf(std::ios::right, std::ios::adjustfield); }
+      else if (st == 2) { os.fill('.'); os.setf(std::ios::left, std::ios::adjustfield); }
+      else if (st == 3) { os.fill('*'); os.setf(std::ios::internal, std::ios::adjustfield); os.setf(std::ios::hex, std::ios::basefield); os.setf(std::ios::showbase | std::ios::uppercase); }
       const char* res = "ok";
       try { tb->format(os, *in); } catch (const std::exception&) { res = "exception"; }
       if (!os.good()) res = "badstream";
-      vj::Line().str("e", "Format").bytes("text", text).bytes("out", os.str()).str("res", res).emit();
+      vj::Line().str("e", "Format").bytes("text", text).bytes("out", os.str()).str("res", res).num("fill", static_cast<long>(os.fill())).emit();
    }
 };
 
